@@ -626,7 +626,18 @@ func (fr *Frame) applyContract(c ssa.CallInstruction, ci calleeInfo, st *State, 
 			fe.havocHeaps(st, "call "+ci.name, func(n string) bool { return names[n] })
 		}
 		if general {
-			fr.frameCall(st, c, ci.name, nil)
+			var gm []string
+			for _, m := range fc.Modifies {
+				if m == "cells" || m == "elems" || m == "maps" || m == "bytes" || strings.HasPrefix(m, "ghost:") || !strings.Contains(m, ".") {
+					gm = append(gm, m)
+				} else if _, isParam := envM.vars[m[:strings.Index(m, ".")]]; !isParam {
+					gm = append(gm, m) // Type.field pattern
+				}
+			}
+			if len(frameObjs) > 0 {
+				gm = nil // mixed frames: keep the conservative obligation
+			}
+			fr.frameCallMods(st, c, ci.name, nil, gm)
 		} else if len(frameObjs) > 0 {
 			fr.frameCall(st, c, ci.name, frameObjs)
 		}
@@ -757,6 +768,16 @@ func (fe *FuncEnc) heapsMatching(m string, ci calleeInfo) []string {
 	if m == "bytes" {
 		fe.heapDecl("HB", "(Array Int String)")
 		return []string{"HB"}
+	}
+	if m == "cells" || m == "elems" {
+		// cells: memory reached through plain pointers (*T cells); elems: slice/array elements
+		pre := map[string]string{"cells": "HP_", "elems": "HS_"}[m]
+		for _, h := range sortedKeys(fe.heapSorts) {
+			if strings.HasPrefix(h, pre) {
+				out = append(out, h)
+			}
+		}
+		return out
 	}
 	parts := strings.Split(m, ".")
 	if len(parts) < 2 {
